@@ -4,6 +4,8 @@ package merlin
 
 import (
 	"io"
+	"reflect"
+	"unsafe"
 
 	"github.com/oasisprotocol/curve25519-voi/internal/strobe"
 )
@@ -17,9 +19,34 @@ func VerifStrobe(t *Transcript) *strobe.Strobe { return &t.s }
 func VerifBuilderStrobe(rb *TranscriptRngBuilder) *strobe.Strobe { return rb.s }
 
 // VerifRngStrobe exposes the STROBE object of a reader returned by Finalize (nil if r is something else).
+// It goes through reflection so that it keeps compiling whether the reader holds its state by pointer or by
+// value and whether Finalize returns a pointer or a value (for a value, a snapshot copy is returned).
 func VerifRngStrobe(r io.Reader) *strobe.Strobe {
-	if tr, ok := r.(*transcriptRng); ok {
-		return tr.s
+	v := reflect.ValueOf(r)
+	for v.IsValid() && (v.Kind() == reflect.Ptr || v.Kind() == reflect.Interface) {
+		if v.IsNil() {
+			return nil
+		}
+		v = v.Elem()
+	}
+	if !v.IsValid() || v.Kind() != reflect.Struct {
+		return nil
+	}
+	if !v.CanAddr() {
+		tmp := reflect.New(v.Type()).Elem()
+		tmp.Set(v)
+		v = tmp
+	}
+	f := v.FieldByName("s")
+	if !f.IsValid() {
+		return nil
+	}
+	want := reflect.TypeOf(strobe.Strobe{})
+	switch {
+	case f.Type() == want:
+		return (*strobe.Strobe)(unsafe.Pointer(f.UnsafeAddr()))
+	case f.Kind() == reflect.Ptr && f.Type().Elem() == want:
+		return *(**strobe.Strobe)(unsafe.Pointer(f.UnsafeAddr()))
 	}
 	return nil
 }
